@@ -507,3 +507,30 @@ def c13(lines, out):
     # descriptor events are always delivered at once: the batch that reports a descriptor of a RUNNING
     # module is followed by a handler invocation carrying that descriptor before the call returns
     return v
+
+
+def c14(lines, out):
+    """thread confinement on the implementation's trace: a call made from a foreign thread, and a message addressed to
+    a module of another context, fail — with a permission error for a live module — and change nothing"""
+    tr = Trace(lines, out)
+    v = common(tr)
+    for r in tr.recs:
+        t = r.op.split()
+        if t[0] == 'foreign' and len(t) >= 4 and isint(r.result):
+            _, pm = parse_dump(r.prev_dump) if r.prev_dump else (None, {})
+            st = pm.get(t[3], {}).get('state')
+            if not neg(r.result):
+                v.append(('foreign_refused', '%s (issued by another thread) returned %s' % (r.op, r.result)))
+            elif st is not None and st != 'Z' and r.result not in ('-1', '-22'):
+                # -EINVAL only from the parameter checks that precede the module check
+                v.append(('foreign_refused', '%s on a live module returned %s, not a permission error' % (r.op, r.result)))
+            if r.invokes:
+                v.append(('foreign_no_effect', '%s ran a callback' % r.op))
+            if r.prev_dump and r.dump and r.dump != r.prev_dump:
+                v.append(('foreign_no_effect', '%s changed the owner\'s state: %s -> %s' % (r.op, r.prev_dump, r.dump)))
+        if t[0] == 'xtell' and isint(r.result):
+            if not neg(r.result):
+                v.append(('cross_ctx_send', '%s (recipient belongs to another context) returned %s' % (r.op, r.result)))
+            if r.invokes or (r.prev_dump and r.dump and r.dump != r.prev_dump):
+                v.append(('cross_ctx_send', '%s had an effect' % r.op))
+    return v
